@@ -6,11 +6,18 @@ META = {
     'technique': 'Coq invariant over all interleavings of a step-level model (one step per atomic access of tail_/head_/slot.seq and per slot payload access; '
                  'any number of threads each pushing and popping, any buffer size) + lockstep replay of the same schedules on the real hooked MpmcRingBuffer '
                  'under a cooperative scheduler, elements lifetime-tracked',
-    'text': 'see coq/Props/Properties_C34.v: per-slot phase invariant (free / claimed / written / full / taking / taken with the sequence number determined by the phase), '
-            'exactly-once delivery by position, value delivered = value claimed for that position, bounded occupancy, quiescent try_pop / try_push / try_push_batch success conditions, '
-            'lifetime ledger without misuse.  The model is tied to the code by running generated scripts (2-4 threads, single/batch push and pop in all API variants) under generated '
-            'schedules on the real class (hooks at every atomic access and payload access) and comparing step trace, results, final head/tail, per-slot sequence numbers, ledger state and '
-            'tags, and the state after the destructor with the model evaluated in Coq; the property is also evaluated model-independently on the implementation\'s trace and results.',
+    'text': 'Kernel-checked for every kBufferSize >= 2 (power of two or not), ANY number of threads each running an arbitrary script of try_push/try_emplace, try_pop variants and '
+            'try_push_batch, and every interleaving (64-bit position wrap excluded by the guarded step: tail + 2*capacity < 2^62): the per-slot phase invariant of DESIGN 6 '
+            '(head <= tail <= head + N; each slot is free / claimed / written / full / taking / taken for a position congruent to its index, its sequence number is that position or position+1 '
+            'accordingly; transient phases belong to exactly one thread that is inside the matching operation); no position is popped twice and a pop returns the value claimed for its position '
+            '(C34_exactly_once_at_most, C34_fifo_by_claim, C34_head_claims_in_order); at quiescence accepted = delivered + contents as multisets (C34_exactly_once_quiescent); tail - head <= N '
+            '(C34_bounded); in a quiescent state a solo try_pop fails iff empty and otherwise delivers position head, a solo try_push fails iff full and otherwise publishes at position tail '
+            '(C34_quiescent_pop_iff_nonempty / _push_iff_notfull, by symbolic execution of the 2/6 and 2/5 steps); the lifetime ledger never records a misuse, at quiescence exactly the slots '
+            'head..tail hold live elements and the destructor leaves none (C34_lifetimes, C34_destructor_balanced).  a solo try_push_batch accepts exactly min(count, N, free space) elements (C34_quiescent_push_batch).  within one thread completed pops claim increasing positions (C34_per_thread_pop_order).  NOT proved: the tie between a '
+            'producer\'s result log and its gpush entries (by construction of the step function; checked on the implementation by the judge), linearizability for C01.  The model is tied to the code by running generated scripts (2-4 threads, single/batch push and '
+            'pop in all API variants) under generated schedules on the real class (hooks at every atomic access and payload access) and comparing step trace, results, final head/tail, per-slot '
+            'sequence numbers, ledger state and tags, and the state after the destructor with the model evaluated in Coq; the property (no duplicate / invented element, per-consumer per-producer '
+            'order, occupancy <= N along the trace, quiescent success conditions of uninterrupted operations, lifetimes) is also evaluated model-independently on the implementation\'s trace and results.',
     'note': 'Trusted: Coq kernel; harness/vsched.h, harness/life.h; SC interleaving of atomics (the acquire/release pairing on slot.seq that makes the payload accesses race-free on weak memory is not modelled). '
             'compare_exchange_strong never fails spuriously. Position wrap (tail reaching 2^62) excluded by the guarded step. No axioms.',
 }
@@ -139,7 +146,7 @@ def run(ctx):
         {'cap': 4, 'rnd': 0, 'progs': [[('B', [1, 2, 3])], [('P', 4)], [('O',), ('O',), ('O',), ('O',)]],
          'sched': [0, 0, 0, 1, 1, 1, 0, 1, 0, 1, 1, 0] + [0, 1, 2] * 29 + [0]},
     ]
-    n = 260 if ctx.quick else 8000
+    n = 180 if ctx.quick else 3000
     cases = fixed + [gen_case(r) for _ in range(n)]
     outs = ls_common.run_cases(exe, [line_of(c) for c in cases])
     ctx.phase('run')
@@ -160,7 +167,7 @@ def run(ctx):
     ctx.cov['rule'] = ('random scripts for 2-4 threads (producers, consumers, mixed; single/batch push and pop in all API variants; <= 6 ops per thread, <= 95 steps) x 12 (Capacity, RoundUpToPowerOfTwo) '
                        'configurations (kBufferSize 2..16) x random or bursty schedules (100 decisions), one fork per case under vsched; non-trivial = some operation reached a CAS; '
                        'distinct = distinct (trace, results, final state) strings')
-    verdicts = ls_common.judge_parallel(ctx, 'From DV Require Import Base.Sched Model.MpmcModel Model.C34Check.', 'judge_mpmc', terms)
+    verdicts = ls_common.judge_parallel(ctx, 'From DV Require Import Base.Sched Model.MpmcModel Model.C34Check.', 'judge_mpmc', terms, shard_size=30)
     if verdicts is None:
         ctx.broken.append('correspondence L(C34): the model no longer evaluates')
         return
